@@ -2,6 +2,7 @@ import Rv.Oracle.Stateless
 import Rv.Oracle.Cache
 import Rv.Oracle.Event
 import Rv.Oracle.Auth
+import Rv.Oracle.Proxy
 /-
   Rv.Oracle — dispatch of op lines to the stateless and stateful model drivers.
 -/
@@ -11,6 +12,7 @@ structure OState where
   cache : Cache.CState := {}
   ev : Event.EState := {}
   au : Auth.AState := {}
+  px : Proxy.PState := {}
 
 def splitArrow : List String → List String → (List String × String)
   | [], acc => (acc.reverse, "")
@@ -29,6 +31,9 @@ def step (os : OState) (line : String) : OState × String :=
   | "au" :: _ =>
     let (a, m, v) := Auth.step os.au fs obs
     ({ os with au := a }, m ++ "\t" ++ v)
+  | "px" :: _ =>
+    let (p, m, v) := Proxy.step os.px fs obs
+    ({ os with px := p }, m ++ "\t" ++ v)
   | "ls" :: _ =>
     -- C14: the theorem says every schedule completes; the model observation is the constant "completed"
     (os, "completed\t" ++ (if obs = "completed" then "ok" else if obs.startsWith "HANG" then "bad:operation-does-not-complete" else "bad:" ++ obs))
